@@ -1,6 +1,7 @@
 import Flowjaxv.Proofs.DistTheory
 import Flowjaxv.Proofs.Leaves
 import Flowjaxv.Proofs.Flows
+import Flowjaxv.Proofs.JaxTransforms
 /-!
 # C03 — transformed densities obey change of variables on both evaluation paths
 
@@ -212,5 +213,21 @@ theorem coupling_flow_instance (base : VDist K ℝ) (hc : base.Consistent) (hD :
     couplingKeys 2 invert couplingKeys_perm base).2.2.2 hc hD
 
 end PremadeFlows
+
+/-! ## Scan, REGENERATED (`Gen/JaxTransforms.lean`; meanings of `lax.scan` / `eqx.partition` / `eqx.combine`: `Model/JaxTrWorld.lean`) -/
+section JaxTransformsGen
+open GenJaxTr
+
+/-- **change of variables through the generated `Scan`**: `Transformed(base, Scan(layers))` — the generated `Scan` methods, the
+generated `AbstractTransformed` methods — returns with every sample the log-probability `log_prob` assigns to it, for any number of
+layers that are lawful with antisymmetric log-dets on their stages (this is where a lost `reverse=True` in
+`Scan.inverse_and_log_det` would show). -/
+theorem gen_scan_transformed_consistent {X C K : Type} (base : Distn X C K ℝ) (s : JaxTr.Scan X C ℝ) {D E : Set X}
+    (h : LogDet.ChainAll Bij.LdAntisym s.bijection.layers D E) (hc : base.Consistent) (hD : ∀ k c, base.sample k c ∈ D) :
+    (Transformed.mk base s.toBij).toDist.Consistent :=
+  Gen.transformed_consistent _ (JaxTrProofs.scan_lawful h.lawful) (JaxTrProofs.scan_ld_antisym h) hc hD
+
+end JaxTransformsGen
+
 
 end C03
